@@ -30,4 +30,14 @@ PROPS = {
         "assumptions": ["time is explored through segment indices (the server is a pure function of URL and nowMS)",
                         "reference = own box walker over the VoD files; no livesim2 code in the oracle"],
     },
+    "C04": {
+        "parts": [{"pkg": "livesim", "test": "TestVerifC04", "gen": True}],
+        "clauses": ["C04.mono", "C04.pre", "C04.early", "C04.body", "C04.avail", "C04.404"],
+        "level": "model_checking",
+        "rule": "per (asset, representation incl. audio, Number/Time addressing, start {0,900,1.7e9}, tsbd {0,1,60,172800}, ato {0,1/4,1/2,seg+1,inf}, snr {unset,1,7}, "
+                "segment index over > 1 loop + far from epoch): sorted sweep of instants, every ms within +-4 (quick) / +-50 (thorough) of both transitions, "
+                "against the 425->200->410 automaton with exact rational transition instants; quick uses a covering subset of the configuration product",
+        "assumptions": ["for audio the availability instant may lie anywhere between the end of the reference video segment and the end of the audio segment (< 1 frame)",
+                        "the 425 body may state floor or ceil of the remaining milliseconds"],
+    },
 }
